@@ -607,6 +607,52 @@ def run_case(case):
             ok = s.wait_for(lambda: sorted(map_info(s.fresh_screen())["blue"]) == base_blue, 3.0)
             if not ok and not labels and not case.get("post_view"):
                 fails.append(("C18/view/reset", f"Enter does not restore the original map: markers {sorted(map_info(s.fresh_screen())['blue'])[:8]} vs {base_blue[:8]}"))
+        # ---- centring the view on an aircraft (Enter on its row of the Airplanes tab) puts its
+        # marker in the middle of the canvas, at every zoom level; the data stay as they are
+        goto = case.get("goto")
+        if goto is not None and not labels and keys and s.alive():
+            row = goto["row"] % len(keys)
+            k = keys[row]
+            if recs[k].get("details"):
+                s.press("F1")
+                time.sleep(0.15)
+                s.press("Enter")  # (reset: start from the receiver-centred view)
+                s.press("F3")
+                if not s.wait_for(lambda: table_rows(s.fresh_screen()) is not None, 4.0):
+                    raise Inconclusive("Airplanes tab did not appear")
+                for _ in range(row + 1):
+                    s.press("Down")
+                    time.sleep(0.05)
+                s.press("Enter")
+                time.sleep(0.2)
+                s.press("F1")
+                s.wait_for(lambda: map_info(s.fresh_screen())["box"][0] is not None, 4.0)
+                for step in range(goto["zoom"] + 1):
+                    if step > 0:
+                        s.press("+")
+                        time.sleep(0.1)
+                    if step not in (0, goto["zoom"]):
+                        continue
+                    found = False
+                    mi3 = None
+                    for attempt in range(10):
+                        mi3 = stable_map(s)
+                        t3, b3, l3, r3 = mi3["box"]
+                        if t3 is None:
+                            continue
+                        mid = ((t3 + b3) / 2.0, (l3 + r3) / 2.0)
+                        if any(abs(bc[0] - mid[0]) <= 2.1 and abs(bc[1] - mid[1]) <= 2.1 for bc in mi3["blue"]):
+                            found = True
+                            break
+                        s.p.pump(0.3)
+                    if mi3 is None or mi3["box"][0] is None:
+                        raise Inconclusive("map not visible")
+                    if not found:
+                        fails.append(("C18/view/centred_aircraft", f"the view was centred on aircraft {k} (Enter on row {row + 1} of the Airplanes tab) and zoomed in {step} step(s): no marker within 2 cells of the canvas centre {mid}; markers at {sorted(mi3['blue'])[:8]}"))
+                        break
+                rows_goto = check_table("after_centring")
+                if rows_before is not None and rows_goto is not None and [[c.strip() for c in r] for r in rows_goto] != [[c.strip() for c in r] for r in rows_before]:
+                    fails.append(("C18/view/table_changed", "the Airplanes tab differs after centring the view on an aircraft"))
         if not s.alive():
             fails.append(("C18/terminated", f"radar terminated: {s.stderr()[-300:]}"))
     finally:
@@ -636,6 +682,8 @@ def classify(case):
         cls.append("receiver position from gpsd")
     if any(ac.get("df18") for ac in case["aircraft"]):
         cls.append("aircraft heard via DF18")
+    if case.get("goto"):
+        cls.append("view centred on an aircraft")
     if any(ac.get("first_other") for ac in case["aircraft"]):
         cls.append("aircraft first heard with a status / target-state squitter")
     return cls, (len(quad) >= 2 and bool(case.get("view")))
@@ -669,6 +717,7 @@ def worker(args):
         "scale": st.sampled_from([None, None, 0.12, 0.2, 0.06]),
         "view": st.lists(view, max_size=3),
         "post_view": st.booleans(),
+        "goto": st.one_of(st.none(), st.fixed_dictionaries({"row": st.integers(0, 7), "zoom": st.sampled_from([0, 3, 8, 12])})),
         "gpsd": st.one_of(st.none(), st.none(), st.none(), st.fixed_dictionaries({"bearing": st.sampled_from([0.0, 90.0, 200.0, 315.0]), "km": st.sampled_from([15.0, 40.0, 90.0])})),
     })
 
@@ -744,7 +793,12 @@ def main():
         # thorough only: an aircraft tracked for more than 10 000 frames next to a fresh one (the
         # Msgs column then needs five digits); radar takes one frame per pass of its main loop, so
         # this session runs for minutes
-        extra_cases=([{"long_lived": 10_050, "rx": 0}] if tier == "thorough" else []),
+        extra_cases=([{"long_lived": 10_050, "rx": 0}] if tier == "thorough" else [])
+        # the view centred on each of three aircraft (20, 100 and 145 km out) and zoomed in 8 and 12 steps
+        + [{"rx": rxi, "aircraft": [{"bearing": 270.0, "km": 145.0, "callsign": "FAR2", "position": True, "alt": 300, "climb": 0, "velocity": None, "extra": 0, "df18": False, "first_other": 0},
+                                    {"bearing": 40.0, "km": 20.0, "callsign": "NEAR1", "position": True, "alt": 200, "climb": 0, "velocity": None, "extra": 0, "df18": False, "first_other": 0},
+                                    {"bearing": 135.0, "km": 100.0, "callsign": None, "position": True, "alt": 100, "climb": 0, "velocity": None, "extra": 0, "df18": False, "first_other": 0}],
+            "labels": False, "scale": None, "view": [], "post_view": False, "gpsd": None, "goto": {"row": row, "zoom": z}} for (rxi, row, z) in ((3, 0, 8), (3, 1, 12), (0, 2, 8), (6, 0, 12))],
     )
     sys.exit(rc)
 
